@@ -10,6 +10,7 @@ from engine import pat
 from engine.util import own_nodes, calls_with_nodes, where, with_exprs
 
 RULES = {
+    "R-03.11": "only the RDATA names the reader may find compressed are written compressed: the set of record writers that hand the message's compression table to an embedded name (or name helper) is the reasoned table below - any other type writes its names uncompressed (RFC 3597 4; e.g. the NSEC next name is case-preserving while the table is keyed case-insensitively)",
     "R-03.10": "0 is a message id like any other: optional numbers of the renderer and message constructors (id, flags, sizes) are tested for presence by identity with None, never by truth value (DoH and DoQ send id 0; a renderer that re-rolls id 0 makes parse(render(m)) != m)",
     "R-03.9": "EDNS options and records keep every field through parse: a value read from the wire is never dropped on the way to the constructor (C02 R-02.7 adopted)",
     "R-03.8": "rendering with the default limit never fails for a message that was parsed from the wire: the default derives from request_payload, else 65535 (C08 R-08.6 adopted)",
@@ -214,6 +215,31 @@ def run(model, rep, tier):
     rep.share(model, "C01", {"R-01.3", "R-01.4"}, "R-03.7", "every compressed name in a rendered message is a pointer produced by Name.to_wire from the table offsets")
     rep.share(model, "C08", {"R-08.6"}, "R-03.8", "re-rendering a parsed message must not hit a limit the original did not have: the default limit comes from request_payload (0 on a parsed message), not from the message's own OPT")
     rep.share(model, "C02", {"R-02.7"}, "R-03.9", "the OPT record's options and every rdata of a message are decoded by the per-type from_wire_parser methods")
+    COMPRESSORS = {
+        "dns.rdtypes.ANY.SOA.SOA._to_wire": "RFC 1035 type (mname, rname)",
+        "dns.rdtypes.nsbase.NSBase._to_wire": "RFC 1035 types NS, CNAME, PTR (the uncompressed subclasses override it)",
+        "dns.rdtypes.mxbase.MXBase._to_wire": "RFC 1035 type MX (the uncompressed subclasses override it)",
+        "dns.rdtypes.CH.A.A._to_wire": "Chaosnet A: legacy behaviour of the library, readers decompress",
+        "dns.rdtypes.IN.SRV.SRV._to_wire": "legacy behaviour of the library (RFC 2782 forbids, every reader accepts); equality of SRV targets is case-insensitive",
+        "dns.rdtypes.IN.NAPTR.NAPTR._to_wire": "legacy behaviour of the library; replacement compared case-insensitively",
+        "dns.rdtypes.ANY.TKEY.TKEY._to_wire": "algorithm name; legacy behaviour of the library",
+        "dns.rdtypes.ANY.AMTRELAY.AMTRELAY._to_wire": "hands the table to the Relay helper, which writes the name with compress=None",
+        "dns.rdtypes.IN.IPSECKEY.IPSECKEY._to_wire": "hands the table to the Gateway helper, which writes the name with compress=None",
+    }
+    n_comp = 0
+    for fw in sorted(model.all_functions(), key=lambda g: g.qualname):
+        if fw.name != "_to_wire" or not fw.module.name.startswith("dns.rdtypes"):
+            continue
+        for c in ast.walk(fw.node):
+            if isinstance(c, ast.Call) and isinstance(c.func, ast.Attribute) and c.func.attr in ("to_wire", "_to_wire") and not src(c.func).startswith("super()") \
+                    and (len(c.args) >= 2 and src(c.args[1]) == "compress" or any(k.arg == "compress" and src(k.value) == "compress" for k in c.keywords)):
+                n_comp += 1
+                if fw.qualname in COMPRESSORS:
+                    rep.excepted("R-03.11", fw.qualname, where(fw, c), COMPRESSORS[fw.qualname], stmt=f"compresses {src(c.func.value)[:30]}")
+                else:
+                    rep.bad("R-03.11", fw.qualname, where(fw, c), f"`{src(c)[:60]}` writes an embedded name with the message's compression table, and {fw.qualname} is not one of the types whose names may be "
+                            "compressed: an independent decoder sees a bare pointer in opaque RDATA, and a case-preserving name comes back in the case of an earlier equal name", stmt=f"compresses {src(c.func.value)[:30]}")
+    rep.floor("R-03.11", n_comp, 8)
     from rules.common import presence_by_identity
     presence_by_identity(model, rep, "R-03.10", ["dns.renderer", "dns.message"], {"id"}, "an optional number of the renderer/message API", "id 0, used by DoH/DoQ, is replaced by a random id", 2, "dns.renderer+dns.message")
     rep.meta["explanation"] = (
@@ -223,6 +249,8 @@ def run(model, rep, tier):
 
 
 WITNESSES = [
+    {"id": "c03-nsec-next-name-compressed", "rule": "R-03.11", "file": "dns/rdtypes/ANY/NSEC.py", "expect": "fires",
+     "old": "        self.next.to_wire(file, None, origin, False)", "new": "        self.next.to_wire(file, compress, origin, False)"},
     {"id": "c03-questions-merged", "rule": "R-03.4", "file": "dns/message.py", "expect": "fires",
      "old": "                section, qname, rdclass, rdtype, create=True, force_unique=True\n            )\n\n    def _add_error", "new": "                section, qname, rdclass, rdtype, create=True\n            )\n\n    def _add_error"},
     {"id": "c03-counts-swapped", "rule": "R-03.1", "file": "dns/renderer.py", "expect": "fires",
